@@ -3,6 +3,7 @@ import XmlRsModel.Thm.C13
 import XmlRsModel.Lemmas.DomStep
 import XmlRsModel.Lemmas.DomInit
 import XmlRsModel.Lemmas.DomNav
+import XmlRsModel.Lemmas.DomDoc
 /-! Property C12: the DOM stays a tree — navigation views agree after any edit history.
 
     The model keeps a forest (the document tree and the detached trees); `parent`, `find`, child lists
@@ -92,6 +93,90 @@ theorem remove_preserves_nodes (s : St) (h : Inv s) (p c : Nat) :
 theorem replace_preserves_nodes (s : St) (h : Inv s) (p new old : Nat) :
     (idsOfL (step s (.replaceChild p new old)).1.roots).Perm (idsOfL s.roots) :=
   perm_iff_count.mpr (replaceChild_sameIds s p new old h).2
+
+/-! ### at most one document element and one document type -/
+
+/-- ONE STEP keeps both invariants together -/
+theorem both_step (s : St) (op : Op) (h : Inv s ∧ DocInv s) : Inv (step s op).1 ∧ DocInv (step s op).1 :=
+  ⟨inv_step s op h.1, step_docInv s op h.1 h.2⟩
+
+theorem both_run (s : St) (ops : List Op) (h : Inv s ∧ DocInv s) : Inv (run s ops) ∧ DocInv (run s ops) := by
+  induction ops generalizing s with
+  | nil => exact h
+  | cons op r ih => exact ih _ (both_step s op h)
+
+/-- for every document with at most one document element and one document type (what the parser
+    delivers) and every history of DOM operations, successful or refused: the document node still has
+    at most one element child and at most one document type child -/
+theorem one_element_one_doctype (d : IDoc) (hd : OneRoot d) (ops : List Op) :
+    cntK isElemK (run (buildSt d) ops).doc.kids ≤ 1 ∧ cntK isDoctypeK (run (buildSt d) ops).doc.kids ≤ 1 :=
+  (both_run (buildSt d) ops ⟨buildSt_inv d, buildSt_docInv d hd⟩).2.2
+
+/-- the hypothesis is met: what `absDocument` builds has at most one element at top level (prolog and
+    trailing Misc contribute comments, processing instructions and document types only) -/
+theorem parsed_has_at_most_one_element (c : CST) (d : IDoc) (h : absDocument c = .ok d) :
+    d.kids.countP isElemTop ≤ 1 := by
+  unfold absDocument at h
+  simp only at h
+  split at h
+  · cases h
+  · next heads hh =>
+    simp only [Except.ok.injEq] at h
+    subst h
+    simp only [List.countP_append]
+    have h1 : ∀ (l : List (Nat × CST)) (xs : List TopItem), absProlog l = .ok xs → xs.countP isElemTop = 0 := by
+      intro l
+      induction l with
+      | nil => intro xs hx; simp [absProlog] at hx; subst hx; rfl
+      | cons p r ih =>
+        intro xs hx
+        obtain ⟨n, b⟩ := p
+        simp only [absProlog] at hx
+        cases hr : absProlog r with
+        | error e => simp [hr] at hx
+        | ok ys =>
+          have iy := ih ys hr
+          simp only [hr] at hx
+          split at hx
+          · simp only [Except.ok.injEq] at hx
+            subst hx
+            cases hm : absMisc b with
+            | none => simpa using iy
+            | some i =>
+              simp only [List.countP_cons, iy]
+              unfold absMisc at hm
+              split at hm
+              · split at hm
+                · simp at hm; subst hm; rfl
+                · split at hm
+                  · simp at hm; subst hm; rfl
+                  · cases hm
+              · cases hm
+          · split at hx
+            · split at hx
+              · cases hx
+              · simp only [Except.ok.injEq] at hx; subst hx
+                simp [List.countP_cons, iy, isElemTop]
+            · simp only [Except.ok.injEq] at hx; subst hx; exact iy
+    have h2 : ∀ (l : List CST), (l.filterMap absMisc).countP isElemTop = 0 := by
+      intro l
+      rw [List.countP_eq_zero]
+      intro t ht
+      simp only [List.mem_filterMap] at ht
+      obtain ⟨b, _, hm⟩ := ht
+      unfold absMisc at hm
+      split at hm
+      · split at hm
+        · simp at hm; subst hm; simp [isElemTop]
+        · split at hm
+          · simp at hm; subst hm; simp [isElemTop]
+          · cases hm
+      · cases hm
+    rw [h1 _ heads hh, h2]
+    split <;> simp [List.countP_cons, isElemTop]
+
+example : OneRoot ⟨none, none, none, [.comment [], .elem (.elem ⟨none, ['a']⟩ [] [])]⟩ := by
+  constructor <;> decide
 
 /-- a node cannot be made a child of itself or of one of its descendants: the call is refused -/
 theorem insert_cycle_refused (s s' : St) (p c : Nat) (ref : Option Nat) (r : Dom.Res)
